@@ -63,7 +63,9 @@ def builtin_corpus():
               "p('a\nb', 'it\\'s', '\"', '\\'\"', 'é\x00\x7f\u2028').", "p :- 'hello world'(x), 'A'.", "'A'(x).", "'_'.", "a_1.\na(x).\na_1(y).", "foo_1.\nfoo(a).",
               "p(X1, x1, _) :- q(_, X1).", "p(_, _, X) :- q(_), r(_, X).", "p(V_X, V_) :- q(V_X).", "p(-1, + 2, - - a).", "p :- a = b, =(a, b), a \\== b.",
               "a :- b.\n:- c(_).\nd(_).", "p :- ( a, ! ; b ).", "p :- ( a -> b ).", "p :- \\+ \\+ a.", "p :- \\+ ( a -> b ; c ).", "p :- ( ( a -> b ; c ) -> d ; e ).",
-              "p :- ( a ; b -> c ; d ), e."]:
+              "p :- ( a ; b -> c ; d ), e.",
+              # a compound term named by a numeral is refused only where the compiler reaches it (Comp/NumeralName.v): dead code after fail is dropped
+              "p :- fail, 1(a).", "p :- (a -> fail), 1(a).", "p :- fail -> 1(a) ; b.", "p :- (fail ; a), 1(a).", "p(1(a)) :- fail.", "p :- fail, X = 1(a).", "p :- a, fail, 007(_).", "p :- \\+ fail, 1(a).", "p :- fail, q(a/1)."]:
         src(s)
     for s in E.boundary_sources():
         src(s, boundary=True)
